@@ -140,7 +140,7 @@ class Impl:
         out = None
         guard = k in ("subscribe", "only")
         if guard:
-            signal.setitimer(signal.ITIMER_REAL, 2.0)
+            signal.setitimer(signal.ITIMER_REAL, 1.0)
         try:
             if k == "register":
                 q = RecQ(op["r"], op["cap"])
@@ -256,7 +256,7 @@ def _oracle_history(registry, n, ops, trace):
             trace.append({"out": out, "state": after})
             k = op["op"]
             if out["k"] == "diverged":
-                return i, "cycle check did not terminate within 2 s"
+                return i, "cycle check did not terminate within 1 s"
             if out["k"] == "raised":
                 return i, f"{k} raised {out['e']} (notifying must never fail because a subscriber was killed or deregistered)"
             if out["k"] == "exception":
@@ -469,8 +469,12 @@ def load_corpus():
     return out
 
 
+SHRINK_FIRST = 5     # failing histories that get delta-debugged
+STOP_AFTER = 40      # failing histories after which a run stops exploring (the verdict is settled)
+
+
 def explore(ck, registry, drv, cases, what, keep_samples=True):
-    """correspondence + property oracle on a batch of (n, ops)"""
+    """correspondence + property oracle on a batch of (n, ops); False = stop exploring"""
     reqs = [{"n": n, "ops": ops} for n, ops in cases]
     try:
         answers = drv.ask(reqs)
@@ -495,12 +499,17 @@ def explore(ck, registry, drv, cases, what, keep_samples=True):
                     break
         if bad is not None:
             i, msg = bad
-
-            def fails(sub, n=n):
-                return oracle_history(registry, n, sub)[0] is not None
-            small = ddmin(ops[:i + 1], fails)
-            b2 = oracle_history(registry, n, small)[0]
-            ck.violate({"n": n, "ops": small}, b2[1] if b2 else msg)
+            if len(ck.violations) < SHRINK_FIRST and "terminate" not in msg:
+                def fails(sub, n=n):
+                    return oracle_history(registry, n, sub)[0] is not None
+                small = ddmin(ops[:i + 1], fails)
+                b2 = oracle_history(registry, n, small)[0]
+                ck.violate({"n": n, "ops": small}, b2[1] if b2 else msg)
+            else:   # enough minimised witnesses: record the cut history as it is
+                ck.violate({"n": n, "ops": ops[:i + 1]}, msg)
+            if len(ck.violations) >= STOP_AFTER:
+                ck.notes.append(f"exploration stopped after {STOP_AFTER} failing histories")
+                return False
             continue
         # distribution / non-triviality from what the implementation did
         kinds = set()
@@ -521,6 +530,7 @@ def explore(ck, registry, drv, cases, what, keep_samples=True):
             ck.nontriv(json.dumps([n, ops], sort_keys=True))
         if keep_samples and 4 <= len(ops) <= 12 and len(kinds) >= 3:
             ck.sample({"n": n, "ops": ops, "outs": [g["out"] for g in got]})
+    return True
 
 
 def run(tier: str) -> int:
@@ -551,13 +561,14 @@ def run(tier: str) -> int:
         # corpus first
         for name, n, ops in load_corpus():
             ck.count("corpus")
-            explore(ck, registry, drv, [(n, ops)], "corpus", keep_samples=False)
+            go = explore(ck, registry, drv, [(n, ops)], "corpus", keep_samples=False)
         r = rng("c17")
         total = 3000 if tier == "quick" else 200000
         done = 0
-        while done < total:
+        go = True
+        while go and done < total:
             batch = [gen_history(r) for _ in range(min(2000, total - done))]
-            explore(ck, registry, drv, batch, "random")
+            go = explore(ck, registry, drv, batch, "random")
             done += len(batch)
         # exhaustive box
         A = alphabet3()
@@ -566,8 +577,10 @@ def run(tier: str) -> int:
         ck.cov["exhaustive_box"] = {"resources": 3, "alphabet": len(A), "max_len": depth,
                                     "sequences_up_to_renaming": len(seqs)}
         for i in range(0, len(seqs), 5000):
-            explore(ck, registry, drv, [(3, s) for s in seqs[i:i + 5000]], "box", keep_samples=False)
-        ck.cov["exhaustive"] = True
+            if not go:
+                break
+            go = explore(ck, registry, drv, [(3, s) for s in seqs[i:i + 5000]], "box", keep_samples=False)
+        ck.cov["exhaustive"] = go
     finally:
         signal.signal(signal.SIGALRM, old)
         signal.setitimer(signal.ITIMER_REAL, 0)
